@@ -13,6 +13,8 @@ import json, os, re, sys
 HERE = os.path.dirname(os.path.abspath(__file__))
 FAMS = ['copy_batch', 'add_batch', 'sub_batch', 'mul_batch', 'copy_avx', 'add_avx', 'sub_avx', 'mul_avx', 'copy_avx512', 'add_avx512', 'sub_avx512', 'mul_avx512']
 SB = 1 << 20   # bound on strides and index entries
+# declared in goldilocks_base_field.hpp but defined nowhere in /repo/src (calling it does not link): no body to verify, no native wrapper
+UNDEFINED = {'g17_008_add_batch'}
 
 
 def declarations(hdr_text):
@@ -76,7 +78,7 @@ def shape(name, plist):
 
 
 def gen(decls, prefix='g17'):
-    wr, ct, table = [], [], []
+    wr, ct, table, orc = [], [], [], []
     for n, (name, plist) in enumerate(decls):
         sh = shape(name, plist)
         W = sh['W']; V = '__m512i' if W == 8 else '__m256i'
@@ -143,18 +145,69 @@ def gen(decls, prefix='g17'):
             if o['pos'] == 'idx': special[o['posargi']] = 'SH_IDX_%s%d(p%d)' % (io, W, o['posargi'])
         hv = '; '.join(re.sub(r'^const ', '', p) for _, p in cdecl)
         ct.append('void h_%s(void) { %s; %s(%s); VF_SENTINEL; }\n' % (uid, hv, uid, ', '.join(special.get(i, p.split()[-1].lstrip('*')) for i, p in cdecl)))
+        # ---------- native scanning oracle (C++), same reading
+        O = []
+        allo = [sh['result']] + sh['ops']
+        sp = {}
+        for o in allo:
+            io = 'o' if o is sh['result'] else 'i'
+            if o['pos'] == 'stride': O.append('const uint64_t p%d = SHP[shape].s%s;' % (o['posargi'], io)); sp[o['posargi']] = 1
+            if o['pos'] == 'idx': O.append('uint64_t *p%d = (uint64_t *)SHP[shape].x%s%d;' % (o['posargi'], io, W)); sp[o['posargi']] = 1
+        exts = []
+        for o in allo:
+            v = 'p%d' % o['argi']
+            if o['kind'] == 'scalar': O.append('uint64_t %s = R.next();' % v); continue
+            if o['kind'] in ('outreg', 'inreg') or o['pos'] == 'none': ext = '%d' % W
+            elif o['pos'] == 'stride': ext = '(%d * p%d + 1)' % (W - 1, o['posargi'])
+            else: ext = '(*std::max_element(p%d, p%d + %d) + 1)' % (o['posargi'], o['posargi'], W)
+            exts.append(v)
+            O.append('std::vector<uint64_t> V%s(%s); for (auto &x_ : V%s) x_ = R.next(); uint64_t *%s = V%s.data(); std::vector<uint64_t> O%s(V%s);' % (v, ext, v, v, v, v, v))
+        O.append('%s(%s);' % (uid, ', '.join(p.split()[-1].lstrip('*') for _, p in cdecl)))
+        def oat(o, k):
+            e = at(o, k)
+            return e if o['kind'] == 'scalar' else 'O' + e
+        for k in range(W):
+            Rk = at(r, k)
+            if op == 'copy': O.append('CHK(%s == %s, %d);' % (Rk, oat(sh['ops'][0], k), k))
+            else: O.append('CHK(%s %% REF_P == ref_%s(%s, %s), %d);' % (Rk, op, oat(sh['ops'][0], k), oat(sh['ops'][1], k), k))
+        rv = 'p%d' % r['argi']
+        def ridx(k):
+            e = at(r, k); return e[e.index('[') + 1:-1]
+        if r['kind'] == 'outarr' and r['pos'] != 'none':
+            O.append('{ std::vector<char> des(V%s.size(), 0); %s for (size_t j = 0; j < V%s.size(); j++) FRAME(des[j] || V%s[j] == O%s[j], "%s", j); }' % (rv, ' '.join('des[%s] = 1;' % ridx(k) for k in range(W)), rv, rv, rv, rv))
+        for v in exts:
+            if v != rv: O.append('for (size_t j = 0; j < V%s.size(); j++) FRAME(V%s[j] == O%s[j], "%s", j);' % (v, v, v, v))
+        pro = 'void %s(%s);' % (uid, ', '.join(p for _, p in cparams))
+        orc.append((uid, name.endswith('512'), pro, 'static int t_%s(int shape, vf_rng &R) { int bad = 0; const char *U = "%s";\n  %s\n  return bad; }' % (uid, uid, '\n  '.join(O))))
         table.append(dict(uid=uid, name=name, params=plist, op=op, W=W, has_idx=any(o['pos'] == 'idx' for o in [sh['result']] + sh['ops']), has_stride=any(o['pos'] == 'stride' for o in [sh['result']] + sh['ops'])))
-    return wr, ct, table
+    return wr, ct, table, orc
 
 
 if __name__ == '__main__':
     hdr = open('/repo/src/goldilocks_base_field.hpp').read()
     decls = declarations(hdr)
-    wr, ct, table = gen(decls)
+    wr, ct, table, orc = gen(decls)
     open(os.path.join(HERE, 'wrappers.cpp'), 'w').write('// GENERATED by props/C17/gen.py -- do not edit\n#include "goldilocks_base_field.hpp"\ntypedef Goldilocks::Element E;\n' +
-        '\n'.join(w if not t['name'].endswith('512') else '#ifdef __AVX512__\n%s\n#endif' % w for w, t in zip(wr, table)) + '\n')
+        '\n'.join(('#ifndef VF_NATIVE\n%s\n#endif' % w) if t['uid'] in UNDEFINED else (w if not t['name'].endswith('512') else '#ifdef __AVX512__\n%s\n#endif' % w) for w, t in zip(wr, table)) + '\n')
     json.dump(table, open(os.path.join(HERE, 'table.json'), 'w'), indent=0)
     open(os.path.join(HERE, 'contracts_gen.inc'), 'w').write('/* GENERATED by props/C17/gen.py -- do not edit */\n' + '\n'.join(ct) + '\n')
+    # native oracle tables (shape numbers as in contracts.c)
+    orc = [x for x in orc if x[0] not in UNDEFINED]
+    SH = {1: (1, 1, [3, 2, 1, 0], [7, 6, 5, 4, 3, 2, 1, 0], [3, 2, 1, 0], [7, 6, 5, 4, 3, 2, 1, 0]),
+          2: (3, 3, [3, 8, 2, 7], [3, 8, 2, 7, 1, 6, 0, 5], [3, 8, 2, 7], [3, 8, 2, 7, 1, 6, 0, 5]),
+          3: (0, 2, [5, 5, 5, 5], [5] * 8, [3, 8, 2, 7], [3, 8, 2, 7, 1, 6, 0, 5]),
+          4: (4099, 4099, [0, 131, 262, 393], [131 * k for k in range(8)], [0, 131, 262, 393], [131 * k for k in range(8)])}
+    A = lambda xs: '{' + ','.join(str(x) for x in xs) + '}'
+    L = ['// GENERATED by props/C17/gen.py -- do not edit', 'struct vf_shape { uint64_t si, so; uint64_t xi4[4], xi8[8], xo4[4], xo8[8]; };', 'static vf_shape SHP[5] = { {},']
+    for n_ in (1, 2, 3, 4): L.append('  { %d, %d, %s, %s, %s, %s },' % (SH[n_][0], SH[n_][1], A(SH[n_][2]), A(SH[n_][3]), A(SH[n_][4]), A(SH[n_][5])))
+    L.append('};\nextern "C" {')
+    for uid, is512, pro, body in orc: L.append(pro if not is512 else '#ifdef __AVX512__\n%s\n#endif' % pro)
+    L.append('}')
+    for uid, is512, pro, body in orc: L.append(body if not is512 else '#ifdef __AVX512__\n%s\n#endif' % body)
+    L.append('struct vf_entry { const char *uid; int (*fn)(int, vf_rng &); };\nstatic vf_entry TESTS[] = {')
+    for uid, is512, pro, body in orc: L.append(('  {"%s", t_%s},' % (uid, uid)) if not is512 else '#ifdef __AVX512__\n  {"%s", t_%s},\n#endif' % (uid, uid))
+    L.append('  {0, 0} };')
+    open(os.path.join(HERE, 'oracle_gen.inc'), 'w').write('\n'.join(L) + '\n')
     print(len(table), 'overloads')
     from collections import Counter
     print(Counter(t['name'] for t in table))
